@@ -44,6 +44,7 @@ func init() {
 		Families: []fw.Family{
 			{Name: "bans", N: constN(2400, 60000), Gen: genModelCase, Eval: c18Eval},
 			{Name: "option-reuse", N: constN(600, 20000), Gen: genModelCase, Eval: c18EvalReuse},
+			{Name: "after-description", N: func(string) int { return c15FollowCount() }, Gen: c15GenFollow, Eval: c18EvalAfterDescription},
 		},
 		Floors: map[string]int64{"banned_hits_checked": 2000, "unaffected_checked": 2000, "opens_projects_run": 100},
 		Post:   c18Post,
@@ -276,9 +277,15 @@ func c18Eval(t *fw.T, c *fw.Case) {
 	m, r := modelOf(c, gen.Options{MaxBlocks: 10, AllowAllOf: true})
 	carrier := []string{"direct", "direct", "paste", "include"}[c.Index%4]
 	var rd *gen.Rendered
+	styled := false
 	switch carrier {
 	case "direct":
-		rd = gen.Render(m, nil)
+		if c.Index%8 == 1 {
+			rd = gen.Render(m, gen.RandomStyle(r.Fork())) // CRLF/CR, comments, bare keywords after bare descriptions...
+			styled = true                                 // (the span map is exact for the canonical rendering only)
+		} else {
+			rd = gen.Render(m, nil)
+		}
 	case "paste":
 		plan := &pastePlan{seed: r.Uint64(), density: 3, maxDepth: 2, sites: map[string]int{}}
 		rd = gen.RenderWith(m, gen.RenderOpts{Paste: plan.hook})
@@ -366,7 +373,7 @@ func c18Eval(t *fw.T, c *fw.Case) {
 			t.Violation("ban-names-other-kind", fmt.Sprintf("banned %v, present %v, but the diagnostic is %q", ban, hit, o.Msg))
 			continue
 		}
-		if carrier == "direct" {
+		if carrier == "direct" && !styled {
 			inside := false
 			for _, s := range rd.Spans {
 				if kindOfSpan(s.Kind) == named && int(o.Index) >= s.Begin && int(o.Index) < s.End {
@@ -392,8 +399,32 @@ func c18Eval(t *fw.T, c *fw.Case) {
 			{"Request", "Request any"}, {"Body", "Body any"}, {"HTTP-response-code", "200 any"}, {"Description", "Description\n    text"}, {"URL", "URL /zz/unusedurl"},
 			{"BaseUrl", "BaseUrl \"https://zz/\""}, {"Title", "Title \"zz\""}, {"Path", "Path\n  {\"id\": 1}"}, {"INFO", "INFO\n    Title \"zz\""},
 		}
+		// larger bodies: the banned kind stands deep inside (after a URL block, under a method with its own path, in parentheses)
+		deep := [][]string{
+			{"URL /zz/u1\n    GET\n      200 any\n  POST /zz/u2\n    Request any\n    201 any", "Request", "POST", "URL"},
+			{"URL /zz/u3\n  (\n    PUT\n    (\n      Query\n      {\"q\": 1}\n      200 any\n    )\n  )\n  DELETE /zz/u4\n    Description\n      text\n    204 empty", "Description", "DELETE", "Query", "PUT"},
+			{"PATCH /zz/u5\n    Request\n      Headers\n      {\"h\": \"v\"}\n      Body any\n    200 any", "Headers", "Body", "PATCH", "Request"},
+			{"URL /zz/rpc\n    Protocol json-rpc-2.0\n    Method zz\n      Params\n      {}\n      Result\n      {}", "Result", "Params", "Method", "Protocol"},
+		}
 		sn := snippets[(c.Index/4)%len(snippets)]
+		if (c.Index/4)%3 == 2 {
+			d := deep[(c.Index/12)%len(deep)]
+			for _, k := range d[1:] {
+				if !present[k] {
+					sn = [2]string{k, d[0]}
+					break
+				}
+			}
+		}
 		with := rd.Text + "MACRO @zzUnusedMacro\n(\n  " + sn[1] + "\n)\n"
+		if c.Index%8 >= 4 { // the same macro, pasted at top level
+			with += "PASTE @zzUnusedMacro\n"
+			if sn[0] == "Query" || sn[0] == "Headers" || sn[0] == "Request" || sn[0] == "Body" || sn[0] == "HTTP-response-code" || sn[0] == "Description" || sn[0] == "BaseUrl" || sn[0] == "Title" || sn[0] == "Path" {
+				if !strings.Contains(sn[1], "/zz/") {
+					with = strings.TrimSuffix(with, "PASTE @zzUnusedMacro\n") // these cannot stand at top level
+				}
+			}
+		}
 		dm := run.Single([]byte(with))
 		dm.FixedSeed = true
 		if om := t.Exec(dm); om.Outcome == run.Accepted && !present[sn[0]] {
@@ -482,4 +513,43 @@ func c18EvalReuse(t *fw.T, c *fw.Case) {
 		return
 	}
 	t.Distinct("reuse " + y)
+}
+
+
+// c18EvalAfterDescription: the directive that follows the free text of a description (every kind, every response-code
+// class, LF/CRLF/CR) is banned: it is a directive of the project like any other and must be refused.
+func c18EvalAfterDescription(t *fw.T, c *fw.Case) {
+	host := c.Meta["host"]
+	f := c15FollowersOf(host)[c.Ints["f"]]
+	text := c15FollowTexts[c.Ints["t"]]
+	nl := []string{"\n", "\r\n", "\r"}[c.Ints["nl"]]
+	first := ""
+	for _, l := range strings.Split(f.text, "\n") {
+		if w := strings.Fields(l); len(w) > 0 {
+			first = w[0]
+			break
+		}
+	}
+	kind := first
+	if len(first) == 3 && first[0] >= '1' && first[0] <= '5' {
+		kind = "HTTP-response-code"
+	}
+	if _, err := run.BanEnum(kind); err != nil {
+		return
+	}
+	d := c15FollowDoc(host, f, text, nl)
+	if o0 := t.Exec(d); o0.Outcome != run.Accepted {
+		t.Count("after_description_template_not_accepted")
+		return
+	}
+	d.Ban = []string{kind}
+	c.Docs = []run.Doc{d}
+	o := t.Exec(d)
+	t.Count("banned_hits_checked")
+	t.Count("banned_after_description_checked")
+	if o.Outcome != run.Rejected || !strings.Contains(o.Msg, "directive not allowed ("+kind+")") {
+		t.Violation("ban-not-enforced:"+kind+":after-description", fmt.Sprintf("banned %s stands right after the text of a description (%s line ends), result: %s\n%q", kind, map[string]string{"\n": "LF", "\r\n": "CRLF", "\r": "CR"}[nl], describe(o), d.Files["root.jst"]))
+		return
+	}
+	t.Distinct(kind + " after-description " + host)
 }
